@@ -51,6 +51,8 @@ def strategy(tier):
           (7, st.just(['request'])), (2, st.tuples(st.just('burst'), st.integers(2, 4)).map(list)),
           (4, st.tuples(st.just('complete'), st.integers(0, 20)).map(list)),
           (2, st.tuples(st.just('fail'), st.booleans()).map(list)),
+          # a caller is interrupted (its own timeout, or killed) while it waits for the connection to open
+          (2, st.tuples(st.just('interrupt'), st.sampled_from(['timeout', 'kill'])).map(list)),
           (2, st.tuples(st.just('advance'), st.sampled_from([1, 4, 12])).map(list))), 0, 50),
   })
   ref = st.fixed_dictionaries({
@@ -62,7 +64,7 @@ def strategy(tier):
   })
   shared = st.fixed_dictionaries({
       'kind': st.just('shared'),
-      'ops': sized_list(weighted((5, st.tuples(st.just('create'), st.sampled_from(['a', 'b', 'c', '', None])).map(list)),
+      'ops': sized_list(weighted((5, st.tuples(st.just('create'), st.sampled_from(['a', 'b', 'c', '', None]), st.sampled_from([0, 0, 1])).map(list)),
                                  (3, st.tuples(st.just('drop'), st.integers(0, 20)).map(list)),
                                  (2, st.tuples(st.just('state'), st.integers(0, 20), st.sampled_from(['closed', 'closed', 'idle', 'open'])).map(list)),
                                  (1, st.just(['gc']))), 0, 30),
@@ -183,7 +185,7 @@ def _exec_singleton(plan):
     st_ = ClientMessageSinkStack()
     st_.Push(Terminal(), r)
     r.stack = st_
-    gevent.spawn(pool.AsyncProcessRequest, st_, msg, None, {})
+    r.greenlet = gevent.spawn(pool.AsyncProcessRequest, st_, msg, None, {})
     return r
 
   def check(step, op):
@@ -249,6 +251,13 @@ def _exec_singleton(plan):
         flags.add('failure')
         if op[1]:
           c.on_faulted.Set(Exception('conn failed'))
+    elif k == 'interrupt':
+      waiting = [r for r in reqs if r.conn is None and not r.completions and not r.greenlet.dead and not getattr(r, 'raced_close', False)]
+      if waiting and any(c.state == ChannelState.Idle for c in prov.conns):
+        r = waiting[0]
+        r.raced_close = True          # nothing is promised to a caller that gave up
+        flags.add('caller_interrupted_while_opening')
+        r.greenlet.kill(gevent.Timeout(0.001) if op[1] == 'timeout' else gevent.GreenletExit(), block=False)
     elif k == 'advance':
       advance(op[1] / 1000.0)
     settle()
@@ -388,22 +397,34 @@ class _KeyProvider(SinkProviderBase):
 
 
 def _exec_shared(plan):
-  sp = SharedSinkProvider(lambda props: props.get('key'))
-  under = _KeyProvider()
-  sp.next_provider = under
-  holders = []     # (key, sink)
+  # two providers in one process (two clients): each shares sinks among its own holders only
+  sps, unders = [], []
+  for _ in range(2):
+    sp = SharedSinkProvider(lambda props: props.get('key'))
+    under = _KeyProvider()
+    sp.next_provider = under
+    sps.append(sp)
+    unders.append(under)
+  holders = []     # (provider index, key, sink)
   dropped = False
+  two = False
   for step, op in enumerate(plan['ops']):
     where = '(step %d: %r)' % (step, op)
     if op[0] == 'create':
       key = op[1]
+      pi = op[2] if len(op) > 2 else 0
+      two = two or pi == 1
+      under = unders[pi]
       before = under.created
-      s = sp.CreateSink({'key': key})
+      other_before = unders[1 - pi].created
+      s = sps[pi].CreateSink({'key': key})
+      if unders[1 - pi].created != other_before:
+        raise Violation(ID, 'keys-mixed', 'CreateSink on one provider created a sink through the other provider %s' % where)
       if not key:
-        if isinstance(s, RefCountedSink) or under.created != before + 1 or any(s is h for _, h in holders):
+        if isinstance(s, RefCountedSink) or under.created != before + 1 or any(s is h for _, _, h in holders):
           raise Violation(ID, 'falsy-key-shared', 'a sink for falsy key %r was shared / wrapped %s' % (key, where))
       else:
-        same = [h for k, h in holders if k == key]
+        same = [h for p_, k, h in holders if k == key and p_ == pi]
         if same:
           if s is not same[0]:
             raise Violation(ID, 'key-not-shared', 'key %r gave a different sink while a holder is alive %s' % (key, where))
@@ -412,24 +433,28 @@ def _exec_shared(plan):
         else:
           if not isinstance(s, RefCountedSink):
             raise Violation(ID, 'key-not-refcounted', 'keyed sink is %r %s' % (type(s).__name__, where))
-        others = [h for k, h in holders if k != key and k]
+          if under.created != before + 1:
+            raise Violation(ID, 'keys-mixed', 'key %r has no live holder on this provider, yet no underlying sink was created for it (another provider\'s sink was handed out?) %s' % (key, where))
+        others = [h for p_, k, h in holders if k and not (k == key and p_ == pi)]
         if any(s is h for h in others):
-          raise Violation(ID, 'keys-mixed', 'key %r returned the sink of another key %s' % (key, where))
-      holders.append((key, s))
+          raise Violation(ID, 'keys-mixed', 'key %r returned the sink of another key or of another provider %s' % (key, where))
+      holders.append((pi, key, s))
       del s
+      same = others = h = None      # no stray references: the cache is weak
     elif op[0] == 'state':
       # the shared connection fails / is closed / comes back while holders keep the sink
-      keyed = [h for k, h in holders if k and isinstance(h, RefCountedSink)]
+      keyed = [h for _, k, h in holders if k and isinstance(h, RefCountedSink)]
       if keyed:
         h = keyed[op[1] % len(keyed)]
         h.next_sink._st = {'closed': ChannelState.Closed, 'idle': ChannelState.Idle, 'open': ChannelState.Open}[op[2]]
+      keyed = h = None
     elif op[0] == 'drop':
       if holders:
         holders.pop(op[1] % len(holders))
         dropped = True
     else:
       gc.collect(0)      # young generation only: a full collection of this process costs ~80 ms
-  return Outcome(nontrivial=None, classes=['shared'] + (['dropped'] if dropped else []))
+  return Outcome(nontrivial=None, classes=['shared'] + (['dropped'] if dropped else []) + (['two_providers'] if two else []))
 
 
 def execute(plan):
